@@ -27,10 +27,10 @@ class C23(dfir.DfirSpec):
         if self.failed(res):
             return 3
         p = dfir.catalogue()[case["prog"]]
-        return "c23_chk %s prog_%d %s %s %s %s" % (
+        return dfir.guard(case["prog"], "c23_chk %s prog_%d %s %s %s %s" % (
             "true" if case["mode"] == "avail" else "false", case["prog"],
             dfir.g_bools(p.sinks), dfir.g_hist(case["hist"]), dfir.g_outs(res["outs"]),
-            "[" + "; ".join(str(x) for x in res["obs"]) + "]")
+            "[" + "; ".join(str(x) for x in res["obs"]) + "]"))
 
     def distribution(self, cases, results):
         d = dfir.DfirSpec.distribution(self, cases, results)
